@@ -40,6 +40,7 @@ impl Log for QuietLog {
     fn log(&self, _level: LogLevel, _msg: String) {}
 }
 static LOG: QuietLog = QuietLog;
+static PANIC_MSG: std::sync::Mutex<String> = std::sync::Mutex::new(String::new());
 
 /// index -> (command string, --in-place, --no-copy); same table as drv_K.ml / c12.py
 const TTABLE: [(&str, bool, bool); 11] = [
@@ -310,6 +311,9 @@ fn run_seq(scratch: &StdPath, id: &str, ops: &[&str]) -> String {
 
 fn write_helper(dir: &StdPath, name: &str, body: &str) {
     let p = dir.join(name);
+    if p.exists() {
+        return; // prepared by the check before the shards start (rewriting a running script fails with ETXTBSY)
+    }
     fs::write(&p, body).unwrap();
     fs::set_permissions(&p, fs::Permissions::from_mode(0o755)).unwrap();
 }
@@ -346,6 +350,9 @@ fn main() {
             let path = std::env::var("PATH").unwrap_or_default();
             std::env::set_var("PATH", format!("{}:{}", bin.display(), path));
             std::env::set_var("LC_ALL", "C");
+            std::panic::set_hook(Box::new(|info| {
+                *PANIC_MSG.lock().unwrap() = info.to_string();
+            }));
             for l in &lines {
                 let toks: Vec<&str> = l.split_whitespace().collect();
                 if toks.is_empty() {
@@ -356,7 +363,10 @@ fn main() {
                 let r = catch_unwind(AssertUnwindSafe(|| run_seq(&scratch, id, &toks[1..])));
                 match r {
                     Ok(s) => writeln!(o, "{s}").unwrap(),
-                    Err(_) => writeln!(o, "{id} | EXN panic").unwrap(),
+                    Err(_) => {
+                        let msg = PANIC_MSG.lock().unwrap().clone().replace(' ', "_").replace('|', "/");
+                        writeln!(o, "{id} | EXN_panic:{msg}").unwrap()
+                    }
                 }
                 o.flush().unwrap();
             }
